@@ -230,8 +230,17 @@ func removeAt(cs []Cert, i int) []Cert {
 // genUpdate draws a predecessor and a well-formed, completely signed update.
 func genUpdate(r *vgen.Rand) *scenario {
 	isd := uint64(r.Range(1, 3))
+	if r.Chance(1, 8) {
+		isd = vgen.Pick(r, uint64(trcgen.MaxISD-1), trcgen.MaxISD) // upper boundary of the ISD range
+	}
 	sh := trcgen.Shape{Sens: r.Range(1, 3), Reg: r.Range(1, 3), Root: r.Range(1, 2)}
 	p := trcgen.GenTRC(r, isd, r.Bool(), sh, 0)
+	if r.Chance(1, 12) {
+		// serial numbers at the upper end of what the payload encoding can carry
+		d := p.Serial - p.Base
+		p.Base = 1<<63 - 2 - d - uint64(r.Intn(2))
+		p.Serial = p.Base + d
+	}
 	s := trcgen.CloneTRC(p)
 	s.Serial = p.Serial + 1
 	s.Grace = int64(r.Intn(3)) * 600
@@ -378,7 +387,11 @@ func mutate(r *vgen.Rand, sc *scenario, k int) string {
 	}
 	switch k {
 	case 0:
-		s.ISD++
+		if s.ISD >= trcgen.MaxISD {
+			s.ISD--
+		} else {
+			s.ISD++
+		}
 		for i := range s.Certs {
 			c := &s.Certs[i]
 			self := c.Subject == c.Issuer
